@@ -2,7 +2,9 @@
 //! /repo's current working tree on generated inputs and prints canonical traces that are
 //! compared with the extracted Coq model (see /verif/DESIGN.md section 4).
 mod canon;
+mod http;
 mod l1;
+mod store;
 
 fn main() {
     let args: Vec<String> = std::env::args().collect();
@@ -15,8 +17,15 @@ fn main() {
             };
             l1::main_lib(b, seed);
         }
+        Some("http") => {
+            let b = match args.get(2).map(|s| s.as_str()) {
+                Some("sqlite") => l1::Backend::Sqlite,
+                _ => l1::Backend::InMem,
+            };
+            http::main_http(b, seed);
+        }
         _ => {
-            eprintln!("usage: harness lib <inmem|sqlite>");
+            eprintln!("usage: harness lib|http <inmem|sqlite>");
             std::process::exit(2);
         }
     }
